@@ -73,7 +73,7 @@ impl Property for C05 {
         vec!["programs live in uncontended RAM (0x8000-0xBFFF), so instruction times are the documented ones (C03) and independent of C04", "kinds 0-2 use programs in uncontended RAM; kind 3 (lock-step) runs arbitrary code and relies on RefULA for contention: a clock difference inside a frame is left to C04, a register difference to C01/C06 (the pair is re-synchronised)"]
     }
     fn expected_probes(&self) -> Vec<&'static str> {
-        vec!["halted_di_program", "overrun_nonzero", "max_mode_call", "breakpoint_call", "multi_frame_call", "window_edge_31_32", "frame_end_step", "lockstep_frame_crossed", "lockstep_interrupt", "tape_error_survived", "snapshot_saved_between_calls"]
+        vec!["halted_di_program", "overrun_nonzero", "max_mode_call", "breakpoint_call", "multi_frame_call", "window_edge_31_32", "frame_end_step", "lockstep_frame_crossed", "lockstep_interrupt", "tape_error_survived", "snapshot_saved_between_calls", "pokes_while_stopped_mid_frame"]
     }
 
     fn gen(&self, rng: &mut Rng, tier: Tier, idx: u64) -> Scenario {
@@ -103,6 +103,7 @@ impl Property for C05 {
                 sc.set("tape_err", if rng.chance(1, 4) { rng.range(1, 2) } else { 0 });
                 sc.set("tape_at", rng.range(0, 3));
                 sc.set("saves", rng.chance(1, 3) as i64);
+                sc.set("pokes", rng.chance(1, 3) as i64);
                 // slicing: list of calls until K frames are done
                 let mut left = k;
                 while left > 0 {
@@ -148,6 +149,11 @@ impl Property for C05 {
         let f = cfg.frame_len() as i64;
         let mut e = new_emu(&cfg);
         let machine = if m128 { "128k" } else { "48k" };
+        // a debugging host pokes into screen memory (the value already there) while stopped at breakpoints
+        crate::machine::POKE_AT_STOPS.with(|p| p.set(sc.get("pokes") != 0));
+        if sc.get("pokes") != 0 {
+            ctx.probe("pokes_while_stopped_mid_frame");
+        }
         match sc.get("kind") {
             3 => {
                 // whole-machine lock-step over random code: frame crossings and interrupt entries must
